@@ -286,11 +286,12 @@ class PrimaiteGame:
                 raise ValueError(msg)
 
             # TODO: handle simulation defaults more cleanly
-            if "node_start_up_duration" in defaults_config:
-                new_node.config.start_up_duration = defaults_config["node_startup_duration"]
-            if "node_shut_down_duration" in defaults_config:
+            # (defaults apply to nodes that do not state the value themselves)
+            if "node_start_up_duration" in defaults_config and "start_up_duration" not in node_cfg:
+                new_node.config.start_up_duration = defaults_config["node_start_up_duration"]
+            if "node_shut_down_duration" in defaults_config and "shut_down_duration" not in node_cfg:
                 new_node.config.shut_down_duration = defaults_config["node_shut_down_duration"]
-            if "node_scan_duration" in defaults_config:
+            if "node_scan_duration" in defaults_config and "node_scan_duration" not in node_cfg:
                 new_node.config.node_scan_duration = defaults_config["node_scan_duration"]
             if "folder_scan_duration" in defaults_config:
                 new_node.file_system._default_folder_scan_duration = defaults_config["folder_scan_duration"]
@@ -346,7 +347,9 @@ class PrimaiteGame:
                         raise ValueError(msg)
 
                     # TODO: handle simulation defaults more cleanly
-                    if "service_fix_duration" in defaults_config:
+                    if "service_fix_duration" in defaults_config and "fixing_duration" not in (
+                        service_cfg.get("options") or {}
+                    ):
                         new_service.config.fixing_duration = defaults_config["service_fix_duration"]
                     if "service_restart_duration" in defaults_config:
                         new_service.restart_duration = defaults_config["service_restart_duration"]
@@ -387,8 +390,12 @@ class PrimaiteGame:
                 new_node.power_on()
 
             # set start up and shut down duration
-            new_node.config.start_up_duration = int(node_cfg.get("start_up_duration", 3))
-            new_node.config.shut_down_duration = int(node_cfg.get("shut_down_duration", 3))
+            new_node.config.start_up_duration = int(
+                node_cfg.get("start_up_duration", defaults_config.get("node_start_up_duration", 3))
+            )
+            new_node.config.shut_down_duration = int(
+                node_cfg.get("shut_down_duration", defaults_config.get("node_shut_down_duration", 3))
+            )
 
         # 1.1 Create Node Sets
         for node_set_cfg in node_sets_cfg:
